@@ -7,6 +7,9 @@ CHECKS = {
 }
 
 def add(pid, cat, technique, text, note, ref):
+    # the notes give the bounds of the generated cases as first built; the sweeps, shapes and value classes added by
+    # the sensitivity rounds are listed in DESIGN.md 9.2 / 9.4, and every evidence file states its current rule
+    note = note + " Bounds given here are those of the generated cases as first built; fixed-size sweeps (more than 65 535 terms, chains of more than 255 links, more than 255 direct parents, ...) and the value classes added later are listed in DESIGN.md sections 9.2 and 9.4, and the `rule` field of the evidence file states what the check generates now."
     CHECKS[pid] = (cat, technique, text, note, ref)
 
 exec(open('/verif/manifest_table.py').read())
